@@ -192,8 +192,10 @@ def _fix_undefined_variables(source: str, variables: Collection[str]) -> str:
             last_skipped_lineno = node.end_lineno
             continue
 
+        # The decorators of a definition stand above the line that node.lineno is
+        first_lineno = min([node.lineno, *(x.lineno for x in getattr(node, "decorator_list", ()))])
         # If it shares its first line with e.g. the docstring, it is better to go after it
-        lineno = node.lineno - 1 if node.lineno > last_skipped_lineno else node.end_lineno
+        lineno = first_lineno - 1 if first_lineno > last_skipped_lineno else node.end_lineno
         break
     else:
         lineno = last_skipped_lineno
@@ -222,7 +224,11 @@ def _fix_undefined_variables(source: str, variables: Collection[str]) -> str:
     if change_count == 0:
         return source
 
-    return "\n".join(lines) + "\n"
+    new_source = "\n".join(lines) + "\n"
+    if not core.is_valid_python(new_source):
+        return source
+
+    return new_source
 
 
 def add_missing_imports(source: str) -> str:
